@@ -190,6 +190,23 @@ func (m *bMachine) apply(s bStep) (perr string) {
 		}
 	case "EndInit":
 		cb.EndInit(1)
+	case "EndInitRejected":
+		// EndInit(2) for one name must be reported; a run-time fault or an acceptance is a failure of the step
+		reported := false
+		func() {
+			defer func() {
+				if e := recover(); e != nil {
+					if _, ok := e.(runtime.Error); ok {
+						panic(e)
+					}
+					reported = true
+				}
+			}()
+			cb.EndInit(2)
+		}()
+		if !reported {
+			panic("EndInit(2) for one name was accepted")
+		}
 	case "If":
 		cb.If()
 	case "For":
@@ -440,8 +457,9 @@ func runC16(tier, replay string) {
 		run.Sample(h)
 		run.Finish()
 	}
-	all := `{"expr","call","assign","reset","flow","init","if","for","switch","typeswitch","select","block","vblock","range","func","closure","inline","label"}`
+	all := `{"expr","call","assign","reset","flow","init","if","for","switch","typeswitch","select","block","vblock","range","func","closure","inline","label","reject"}`
 	confs := []c16Conf{
+		{name: "init-reject", ops: `{"expr","init","reject","if","vblock","block","func"}`, nest: 6, stk: 3, hist: 8},
 		{name: "if-for-init", ops: `{"expr","call","init","if","for","func"}`, nest: 6, stk: 2, hist: 9},
 		{name: "switch-typeswitch-select", ops: `{"expr","call","switch","typeswitch","select","func"}`, nest: 6, stk: 2, hist: 9},
 		{name: "closures-inline-init", ops: `{"expr","call","init","closure","inline","func","block"}`, nest: 6, stk: 3, hist: 6},
@@ -452,6 +470,7 @@ func runC16(tier, replay string) {
 	}
 	if tier == "thorough" {
 		confs = []c16Conf{
+			{name: "init-reject", ops: `{"expr","init","reject","if","vblock","block","func","closure"}`, nest: 7, stk: 3, hist: 10},
 			{name: "if-for-init", ops: `{"expr","call","init","if","for","func"}`, nest: 7, stk: 3, hist: 11},
 			{name: "switch-typeswitch-select", ops: `{"expr","call","switch","typeswitch","select","func"}`, nest: 7, stk: 2, hist: 11},
 			{name: "closures-inline-init", ops: `{"expr","call","init","closure","inline","func","block"}`, nest: 7, stk: 3, hist: 7},
